@@ -6,22 +6,12 @@ import (
 	"strings"
 	"testing"
 
-	"verifharness/c02"
-	"verifharness/c03"
 	"verifharness/fw"
 	"verifharness/xp"
 
 	"github.com/sdcio/yang-parser/xpath/grammars/expr"
 	"github.com/sdcio/yang-parser/xpath/grammars/leafref"
-	"pgregory.net/rapid"
 )
-
-type Case struct {
-	Grammar string  `json:"grammar"` // expr | leafref
-	Src     fw.BStr `json:"src"`
-	MapFn   bool    `json:"mapfn"`
-	Near    bool    `json:"near,omitempty"` // within one token edit of a valid sentence
-}
 
 func knownPrefix(p string) bool { return p == "" || p == "p" || p == "q" }
 
@@ -93,228 +83,6 @@ func checkCase(cc Case) fw.Outcome {
 		out.Violation = fmt.Sprintf("%s grammar, input %q (prefix map: %v): reference says %s, implementation says %s (err=%v)", c.Grammar, c.Src, c.MapFn, want, got, err)
 	}
 	return out
-}
-
-// ---- generators ----------------------------------------------------------------
-
-var exprAlphabet = []string{"(", ")", "[", "]", ".", "..", "@", ",", "::", "/", "//", "|", "+", "-", "=", "!=", "<", ">=", "*", "1", "'s'",
-	"a", "p:b", "p:*", "u:b", "div", "and", "or", "mod", "text", "node", "child", "self", "current", "deref", "count", "true", "not", "concat", "nosuch", "$v", ":",
-	// operator names are case sensitive: these are ordinary names
-	"AND", "Or", "DIV", "Mod"}
-
-var lrAlphabet = []string{"/", "..", "[", "]", "=", "(", ")", "current", "a", "p:b", "xmlfoo", "u:b", ".", "*", "'s'", "1"}
-
-func wordy(s string) bool {
-	c := s[len(s)-1]
-	return c == '.' || c == '-' || c == '_' || (c >= '0' && c <= '9') || (c|0x20 >= 'a' && c|0x20 <= 'z') || c >= 0x80
-}
-func wordyStart(s string) bool {
-	c := s[0]
-	return c == '.' || c == '-' || c == '_' || (c >= '0' && c <= '9') || (c|0x20 >= 'a' && c|0x20 <= 'z') || c >= 0x80
-}
-
-func joinTight(toks []string) string {
-	var b strings.Builder
-	for i, t := range toks {
-		if i > 0 && wordy(toks[i-1]) && wordyStart(t) {
-			b.WriteByte(' ')
-		}
-		b.WriteString(t)
-	}
-	return b.String()
-}
-
-func tokensOf(e *xp.E) []string {
-	var out []string
-	for _, t := range xp.Tokens(e, xp.MinParens) {
-		out = append(out, t.T)
-	}
-	return out
-}
-
-func lrSentence(t *rapid.T) []string {
-	pick := func(n int, l string) int { return rapid.IntRange(0, n-1).Draw(t, l) }
-	id := func() string {
-		// the last entries are not RFC 6020 identifiers (ASCII letters, digits, "_", "-", "." only) although XML would
-		// take them as names
-		return []string{"a", "b", "p:c", "q:d", "e-1", "f.g", "_h", "current", "x1", "a", "b", "p:c", "q:d", "e-1", "f.g", "_h", "current", "x1",
-			"caf\u00e9", "b\u00b7c", "p:caf\u00e9", "na\u00efve:x", "a\u0301", "x\u203fy", "\u00e9a", "a\u65e5"}[pick(26, "id")]
-	}
-	pred := func() []string {
-		out := []string{"[", id(), "=", "current", "(", ")", "/"}
-		for i := 0; i <= pick(3, "ups"); i++ {
-			out = append(out, "..", "/")
-		}
-		// one time in eight the key expression carries a predicate of its own on one of its steps, which the
-		// rel-path-keyexpr of RFC 6020 does not allow (a multi-token departure from the language)
-		nested := func() []string {
-			if pick(8, "nestedpred") == 3 {
-				return []string{"[", id(), "=", "current", "(", ")", "/", "..", "/", id(), "]"}
-			}
-			return nil
-		}
-		for i := 0; i < pick(3, "mid"); i++ {
-			out = append(out, id())
-			out = append(out, nested()...)
-			out = append(out, "/")
-		}
-		out = append(out, id())
-		out = append(out, nested()...)
-		return append(out, "]")
-	}
-	abs := func() []string {
-		var out []string
-		for i := 0; i <= pick(3, "nabs"); i++ {
-			out = append(out, "/", id())
-			for j := 0; j < pick(3, "npred")-1+0; j++ {
-				out = append(out, pred()...)
-			}
-		}
-		return out
-	}
-	if pick(2, "absrel") == 0 {
-		return abs()
-	}
-	var out []string
-	for i := 0; i <= pick(3, "nups"); i++ {
-		out = append(out, "..", "/")
-	}
-	out = append(out, id())
-	if pick(2, "tail") == 0 {
-		for j := 0; j < pick(3, "npred2"); j++ {
-			out = append(out, pred()...)
-		}
-		out = append(out, abs()...)
-	}
-	return out
-}
-
-var lexical = []string{
-	"a\x00", "a = 1 \x00 ]]]", "\x00", "'a\x00b'", "a\x00b", "0\x00", "a \x00", "a\x01", "'\x01'", "a\x7f",
-	".0", ".05", ".007", ".00", "0.", "00", "007", "0.0", ".9", "1.50", "a > .05", "a[. < .01]", ". < .0", ".0.", "..0", ". 0", "a/.0",
-	"1", "1.", ".1", "1.2.3", "1e5", "1e", "1e+5", "1E5", "1.e5", ".5e3", "1..2", "0x10", "1_0", "1a", "1 e5", "12e", strings.Repeat("9", 400), "1.5.", ". 5", "1 . 5", "5 .", "..5", "1..",
-	"''", "\"\"", "'a", "\"a", "'a\"", "'a''", "'a' 'b'", "'it''s'", "\"it's\"", "'\xff'", "'a\xc3'", "\"\xe2\x82\"", "'\xed\xa0\x80'",
-	"", " ", "\t\n", "a\xff", "\xffa", "a:\xff", "\xff:a", "a[\xff]", "a \xff", "$a", "$p:a", "a$", "#", "a#b", "a{b}", "a\\b", "a;b", "a?b", "a~b", "a%b", "a&b", "a^b", "a`b",
-	"a:b", "a :b", "a: b", "a : b", "a:*", "a: *", "a :*", "a:b:c", "a::b", "a:", ":a", "a:1", "a:-b", "a:'b'", "p:b(", "p:concat('a','b')",
-	"()", "( )", "(())", "(1)", "((1))", "(a)", "(a)/b", "(a)[1]", "(a)//b", "'x'/a", "1/a", "true()/a", "a/(b)", "a/'x'", "a/1", "a/true()",
-	"/", "/ ", "//", "/a", "//a", "a//b", "a/", "a//", "/a/", "/..", "/.", "/*", "/ *", "/ * 2", "/ div 2", "/div", "/ and /", "/a and /b", "/ = /", "/=/",
-	"*", "**", "***", "* * *", "a*b", "a * b", "a* b", "a *b", "*a", "a*", "2*3", "2 * * ", "2 * *", "* * 2", "*[1]", "*/*", "* div *", "* mod* ", "div div div", "div * mod", "and and and", "or or or", "mod mod mod", "div div", "and or", "- -1", "--1", "- - a", "-", "1-", "1--1", "1 - - 1", "a-b", "a - b", "a -b", "a- b",
-	"@a", "a/@b", "@*", "child::a", "self::node()", "parent::*", "ancestor-or-self::a", "attribute::a", "foo::a", "child ::a", "child:: a", "child : : a", "a::", "::a",
-	"text()", "node()", "comment()", "processing-instruction()", "processing-instruction('x')", "a/text()", "a/node()", "text", "node", "comment", "text ()", "node ( )",
-	"current()", "current( )", "current ()", "current()/a", "current()/..", "current()/../a[k=current()/b]", "current", "current(1)", "current()()", "current()[1]", "current()/", "string(current())", "current()=1", "-current()",
-	"deref(a)", "deref(a)/b", "deref(current())", "deref(current()/../a)/../b", "deref(deref(a)/b)", "deref()", "deref(a,b)", "deref(1)", "deref('a')", "deref(a|b)", "deref(a)[1]", "deref", "deref (a)", "deref(a=b)", "deref((a))",
-	"true()", "true(1)", "true", "true ()", "false()", "not()", "not(1)", "not(1,2)", "concat('a')", "concat('a','b')", "concat('a','b','c')", "concat('a','b','c','d')", "substring('a',1)", "substring('a',1,2)", "substring('a',1,2,3)",
-	"string()", "string(1)", "number()", "number(1)", "boolean(1)", "boolean()", "count(a)", "count()", "count(1)", "count(a,b)", "sum(a)", "local-name()", "local-name(a)", "last()", "last(1)", "position()", "floor(1)", "ceiling(1.5)", "round(1)", "round()", "string-length('a')", "string-length()", "normalize-space('a')", "normalize-space()", "translate('a','b','c')", "translate('a','b')", "starts-with('a','b')", "contains('a','b')", "substring-before('a','b')", "substring-after('a','b')", "re-match('a','b')", "re-match('a')",
-	"lang('en')", "id('a')", "name()", "name(a)", "namespace-uri()", "nosuch()", "nosuch(1)", "p:f()", "f", "f(", "f)", "f()",
-	"a[1]", "a[1][2]", "a[]", "a[", "a]", "a[[1]]", "a[1]]", "a[b[c]]", "a[b=c]/d", "a[1]/b[2]", ".[1]", "..[1]", "a/.[1]", "a[.]", "a[..]", "a[. = 1]", "1[1]", "'a'[1]", "(1)[1]",
-	"a|b", "a|", "|a", "a||b", "a|b|c", "a | (b | c)", "(a|b)/c", "1|2", "a|1", "'a'|b", "a|b[1]", "-a|b",
-	"a AND b", "a Or b", "1 DIV 2", "a Mod b", "AND", "a/AND", "AND and Or", "DIV div Mod", "a and b OR c", "Div(1)", "a aNd b",
-	"a and b", "a or b", "a and", "and a", "a andb", "aand b", "a and and", "a div b", "a mod b", "a div", "div", "1 div 2", "1div 2", "1 div2", "1div2", "(1)div(2)", "1 mod(2)", "a=b", "a!=b", "a!b", "a=!b", "a==b", "a<b", "a<=b", "a=<b", "a>b", "a>=b", "a=>b", "a<>b", "a<<b", "a< =b", "a! =b", "1<2<3", "1=2=3", "a+b", "a+", "+a", "a++b", "1+-1", "1-+1", "a,b", ",", "a,", "(a,b)",
-	"é", "éa", "aé", "·a", "a·", "a\u0300", "\u0300a", "a\u203f", "\u203fa", "a\u00d7", "\u00d7", "a\u00f7b", "\u037e", "a\u037e", "\u2000a", "a\u2000", "\u3000", "a\u3000b", "\ufffe", "a\ufffe", "\U000effff", "\U000f0000", "a\U000f0000", "日本:語", "p:日本", "日本:*",
-}
-
-var boundaryRunes = []rune{0xB6, 0xB7, 0xB8, 0xBF, 0xC0, 0xD6, 0xD7, 0xD8, 0xF6, 0xF7, 0xF8, 0x2FF, 0x300, 0x36F, 0x370, 0x37D, 0x37E, 0x37F, 0x1FFF, 0x2000,
-	0x200B, 0x200C, 0x200D, 0x200E, 0x203E, 0x203F, 0x2040, 0x2041, 0x206F, 0x2070, 0x218F, 0x2190, 0x2BFF, 0x2C00, 0x2FEF, 0x2FF0, 0x3000, 0x3001,
-	0xD7FF, 0xE000, 0xF8FF, 0xF900, 0xFDCF, 0xFDD0, 0xFDEF, 0xFDF0, 0xFFFD, 0xFFFE, 0xFFFF, 0x10000, 0xEFFFF, 0xF0000, 0x10FFFF}
-
-func genCase(t *rapid.T) Case {
-	pick := func(n int, l string) int { return rapid.IntRange(0, n-1).Draw(t, l) }
-	c := Case{Grammar: "expr", MapFn: rapid.Bool().Draw(t, "mapfn")}
-	var toks []string
-	alphabet := exprAlphabet
-	switch pick(6, "family") {
-	case 0:
-		toks = tokensOf(c03.Gen(t).Expr)
-	case 1:
-		toks = tokensOf(c02.Gen(t).Expr)
-	case 2, 3:
-		c.Grammar = "leafref"
-		alphabet = lrAlphabet
-		toks = lrSentence(t)
-	case 4:
-		// random token soup
-		n := 1 + pick(7, "len")
-		for i := 0; i < n; i++ {
-			toks = append(toks, exprAlphabet[pick(len(exprAlphabet), "tok")])
-		}
-		c.Src = fw.BStr(strings.Join(toks, " "))
-		return c
-	default:
-		// names at XML name-character boundaries
-		r := boundaryRunes[pick(len(boundaryRunes), "rune")]
-		switch pick(4, "place") {
-		case 0:
-			c.Src = fw.BStr(string(r) + "a")
-		case 1:
-			c.Src = fw.BStr("a" + string(r))
-		case 2:
-			c.Src = fw.BStr("a/" + string(r) + " = 1")
-		default:
-			c.Src = fw.BStr("p:" + string(r) + "x")
-		}
-		return c
-	}
-	// numbers in every lexical form of the Number production (Digits ('.' Digits?)? | '.' Digits), leading zeros included
-	if pick(3, "numforms") == 1 {
-		forms := []string{".0", ".05", ".007", "0.", "00", "007", "1.", "1.0", "0.0", ".9", "10", "1.50", ".50", "0", "9.", ".1234567890"}
-		for i, tk := range toks {
-			if tk != "" && tk != "." && tk != ".." && strings.Trim(tk, "0123456789.") == "" {
-				toks[i] = forms[pick(len(forms), "numform")]
-			}
-		}
-	}
-	// one token edit (or none)
-	c.Near = true
-	switch pick(6, "edit") {
-	case 0:
-		// unchanged valid sentence
-	case 1:
-		if len(toks) > 1 {
-			i := pick(len(toks), "del")
-			toks = append(toks[:i:i], toks[i+1:]...)
-		}
-	case 2:
-		i := pick(len(toks)+1, "ins")
-		toks = append(toks[:i:i], append([]string{alphabet[pick(len(alphabet), "instok")]}, toks[i:]...)...)
-	case 3:
-		i := pick(len(toks), "dup")
-		toks = append(toks[:i:i], append([]string{toks[i]}, toks[i:]...)...)
-	case 4:
-		if len(toks) > 1 {
-			i := pick(len(toks)-1, "swap")
-			toks[i], toks[i+1] = toks[i+1], toks[i]
-		}
-	default:
-		i := pick(len(toks), "rep")
-		toks[i] = alphabet[pick(len(alphabet), "reptok")]
-	}
-	switch pick(4, "join") {
-	case 0:
-		c.Src = fw.BStr(strings.Join(toks, " "))
-	case 1:
-		c.Src = fw.BStr(joinTight(toks))
-	case 2:
-		c.Src = fw.BStr(" " + strings.Join(toks, " \t\n") + "\r")
-	default:
-		// every gap its own run of 1-3 whitespace characters in any order (XPath ExprWhitespace: #x20 #x9 #xD #xA)
-		var b strings.Builder
-		for i, t := range toks {
-			if i > 0 {
-				n := 1 + pick(3, "wslen")
-				for j := 0; j < n; j++ {
-					b.WriteByte(" \t\r\n"[pick(4, "wschar")])
-				}
-			}
-			b.WriteString(t)
-		}
-		c.Src = fw.BStr(b.String())
-	}
-	if pick(12, "badutf") == 0 && len(c.Src) > 0 {
-		i := pick(len(c.Src)+1, "utfpos")
-		c.Src = c.Src[:i] + fw.BStr([]string{"\xff", "\xc3", "\xe2\x82", "\x80"}[pick(4, "utfbyte")]) + c.Src[i:]
-		c.Near = false
-	}
-	return c
 }
 
 var syntax = fw.Register(&fw.Prop[Case]{
